@@ -53,6 +53,7 @@ type Stream struct {
 	MaxAfter    int
 	Done        bool // EOF or error has been reported
 	ShortReads  int
+	OnSpin      func(calls int) // called instead of panicking with Spin
 }
 
 // NewStream builds a stream; seed feeds the secondary generator.
@@ -120,6 +121,9 @@ func (s *Stream) fin() {
 	if s.Done {
 		s.after++
 		if s.after > s.MaxAfter {
+			if s.OnSpin != nil {
+				s.OnSpin(s.after)
+			}
 			panic(Spin{s.after})
 		}
 	}
